@@ -5,7 +5,7 @@ activation, compileStream: parse_string + compileScenicAST + compileTranslatedTr
 token-level mutants (delete / insert / replace / swap / re-indent / truncate, seeded by VERIF_SEED) of
 
   * the .scenic programs under <repo>/examples, and
-  * the Scenic examples quoted in <repo>/docs/reference (`.. code-block:: scenic` blocks and complete-statement
+  * the Scenic examples quoted in <repo>/docs/reference (`.. code-block:: scenic` blocks, literal `::` blocks and complete-statement
     `:scenic:` inline examples; the latter must also be ACCEPTED unmutated).
 
 The execution phase of the translated program (`executeCodeIn`, `storeScenarioStateIn`, `constructScenarioFrom`) is
@@ -69,7 +69,7 @@ def docs_examples(root):
         lines = text.split("\n")
         i = 0
         while i < len(lines):
-            if re.match(r"^\s*\.\. code-block:: scenic\s*$", lines[i]):
+            if re.match(r"^\s*\.\. code-block:: scenic\s*$", lines[i]) or (lines[i].rstrip().endswith("::") and not lines[i].lstrip().startswith("..")):  # also literal blocks ("For example::")
                 ind = len(lines[i]) - len(lines[i].lstrip())
                 j = i + 1
                 block = []
